@@ -81,3 +81,10 @@ def renormalized(chk):
     ok = any(True for e in I.raises if any((not p) and sym.contains(a, lambda n: (n[0] == "fld" and n[2] == "_fixed_income") or (n[0] == "attr" and n[2] == "fixed_income")) for a, p in e.guard))
     chk.ob("C17.R6", ok, BACKTEST, "RenormalizedFixedIncomeResult.__init__", "non-fi-rejected", "backtests that are not on a fixed-income strategy are rejected", where=I.fn.where)
     core_rules.security_setup_rules(chk, "C17")
+    # weights reported for a fixed-income backtest are fractions of the ROOT's notional
+    from .algo_equiv import check_equiv as _ce
+    from .c18 import REFS as _R18
+
+    for mod, cls, name, src, what in _R18:
+        if cls == "Backtest" and name in ("weights", "security_weights"):
+            _ce(chk, "C17.R5", mod, cls, name, src, "report-formula", "%s.%s: %s" % (cls, name, what), limit=14)
